@@ -97,6 +97,8 @@ def case(job):
 
     try:
         sampler = getattr(samplers, variant)(data)
+        # a second sampler over a different map stays alive and is called in between (no shared state)
+        other = getattr(samplers, variant)(np.zeros((ny + 1, nx + 2) + data.shape[2:], dtype=data.dtype))
     except Exception as e:
         bad("constructor-raises:%s" % type(e).__name__, repr(e))
         return part
@@ -111,6 +113,7 @@ def case(job):
             qlat = lat[sel].reshape(req)
             part.case(nontrivial=(ny == 1 or nx == 1 or ny % 2 == 1 or nx % 2 == 1 or sh != 0), n=min(n_req, npts - start))
             try:
+                other(qlon[:1, :1], qlat[:1, :1])
                 out = np.asarray(sampler(qlon, qlat))
             except Exception as e:
                 bad("raises:%s" % type(e).__name__, repr(e), {"lon_shift_turns": sh})
